@@ -134,6 +134,23 @@ func (ex *Exec) vcall(th *Thread, caller *Frame, name string, args []Value, fini
 		aEnd, bEnd := c.Add(a.off, a.len), c.Add(b.off, b.len)
 		dis := c.OrN(c.Eq(a.len, c.I64(0)), c.Eq(b.len, c.I64(0)), c.Ule(aEnd, b.off), c.Ule(bEnd, a.off))
 		finish(dis)
+	case "vAnd":
+		finish(c.And(args[0].(*Term), args[1].(*Term)))
+	case "vOr":
+		finish(c.Or(args[0].(*Term), args[1].(*Term)))
+	case "vIteInt":
+		finish(c.Ite(args[0].(*Term), args[1].(*Term), args[2].(*Term)))
+	case "vAt": // byte at index i, 0 beyond the end; no bounds obligation
+		s := args[0].(*StrVal)
+		i := ex.toIdx(args[1].(*Term))
+		finish(c.Ite(c.Ult(i, s.len), s.seq.At(ex, i), c.Const(8, 0)))
+	case "vParam":
+		name := ex.strArg(args[0])
+		def := ex.intArg(args[1])
+		if v, ok := ex.cfg.Params[name]; ok {
+			def = int64(v)
+		}
+		finish(c.I64(def))
 	case "vCover":
 		ex.covers[ex.strArg(args[0])] = true
 		finish(nil)
